@@ -15,7 +15,7 @@ SPEC = {
              '(b) whole generated production lines (all device kinds, faults, maintenance) run with the same '
              'queue monitor attached; non-trivial = at least one tie group (>=2 live events with equal time '
              'and priority at dispatch) or an insertion from inside an action or an unpause that shifted an '
-             'event; distinct = by hash of the case'),
+             'event; distinct = by hash of the case; also: integer-tick clocks above 2**53 (queue sequences and System.simulate at System level), actions that fail (HarnessError / KeyboardInterrupt) under a caller that drives with step() and catches, zero-length simulate() calls, and a System-level end check after every simulate(d)'),
     'floors': {'quick': {'dispatches_checked': 1000, 'tie_groups': 50, 'run_windows_checked': 500,
                          'past_rejected': 50, 'resumes_rounding_below_now': 5, 'second_execute_checked': 1000, 'line_dispatches_checked': 10000, 'line_tie_groups': 1000},
                'thorough': {'dispatches_checked': 100000, 'tie_groups': 5000, 'run_windows_checked': 10000,
